@@ -93,6 +93,14 @@ MODEL_B = """<?xml version="1.0" encoding="UTF-8"?>
 <informationRequirement><requiredInput href="#_Cur"/></informationRequirement>
 <literalExpression><text>Cur</text></literalExpression>
 </decision>
+<decision name="ViaSvc" id="_ViaSvc"><variable name="ViaSvc"/>
+<informationRequirement><requiredInput href="#_Txt"/></informationRequirement>
+<informationRequirement><requiredInput href="#_Num"/></informationRequirement>
+<informationRequirement><requiredInput href="#_Day"/></informationRequirement>
+<knowledgeRequirement><requiredKnowledge href="#_Svc"/></knowledgeRequirement>
+<knowledgeRequirement><requiredKnowledge href="#_Pick"/></knowledgeRequirement>
+<literalExpression><text>[Svc(Txt, Num, Day), Pick([Num, Txt], 2), Svc(Txt: "abc123", Num: 2, Day: Day).second]</text></literalExpression>
+</decision>
 <decisionService name="Svc" id="_Svc"><variable name="Svc"/>
 <outputDecision href="#_All"/>
 <encapsulatedDecision href="#_Regex"/><encapsulatedDecision href="#_Numeric"/><encapsulatedDecision href="#_Temporal"/>
@@ -102,14 +110,14 @@ MODEL_B = """<?xml version="1.0" encoding="UTF-8"?>
 
 
 def build_workload(rng):
-    models, calls, services = [], [], [[0, "Svc"], [0, "Iter"], [0, "Deep"], [0, "RxPlain"], [0, "RxFlags"], [0, "Zones"], [0, "Typed"], [0, "TypedOut"]]
+    models, calls, services = [], [], [[0, "Svc"], [0, "Iter"], [0, "Deep"], [0, "RxPlain"], [0, "RxFlags"], [0, "Zones"], [0, "Typed"], [0, "TypedOut"], [0, "ViaSvc"]]
     models.append(MODEL_B)
     txts = ["abc123", "hello", "x9y8z7", "żółć", "aeiou", "UPPER", "a1", "", "a.c", "A\nbC", "aa.b+"]
     # among them days on which a named zone skips or repeats an hour (the local times of `Zones` then do not exist or are ambiguous)
     days = ["2021-03-27", "2020-02-29", "1999-12-31", "2021-10-31", "2024-07-15", "2021-03-28", "2021-03-14", "2021-11-07", "2011-12-30", "2021-10-03"]
     for k in range(14):
         inp = [["Txt", {"s": rng.choice(txts)}], ["Num", {"n": str(rng.randint(1, 10 ** 6)) + "." + str(rng.randint(0, 999))}], ["Day", {"s": rng.choice(days)}]]
-        for inv in ("Regex", "RxPlain", "RxFlags", "Numeric", "Temporal", "Zones", "Iter", "Deep", "All", "Svc"):
+        for inv in ("Regex", "RxPlain", "RxFlags", "Numeric", "Temporal", "Zones", "Iter", "Deep", "All", "Svc", "ViaSvc"):
             calls.append([0, inv, inp])
         # inputs typed by item definitions with allowed values (alone, as items of a collection, as components): values inside and outside
         curs, lvls = ["CHF", "EUR", "USD", "GBP", "chf", ""], ["1", "3", "5", "10", "0", "6", "2.5"]
@@ -177,7 +185,7 @@ def run(rep, tier, seed):
     tsan_reps = 4 if tier == "quick" else 40
     rep.rule = (
         "%d repetitions (thread counts 2, 3, 4, 8, 16 in turn; 60-400 calls per thread) of seeded call permutations over 4 shared evaluators (regular-expression decisions incl. two that use the same patterns with and without flags / optional arguments, numeric, temporal-with-zones decisions incl. local times that a zone skips or repeats, a decision made of for / some / every / filter / sort / function literal / context / named invocation / if / in / between / instance of, a decision that recurses 40-60 levels deep through a knowledge model and through a function literal, "
-        "a boxed context using a knowledge model, a decision service; generated graphs with nested decisions, BKM chains, tables and services) plus a rotating window of the repository's own example models (every invocable, three input contexts each), with seeded yields / spins / sleeps at the hook between lock "
+        "a boxed context using a knowledge model, a decision service, a decision that calls that service as a function (knowledge requirement); generated graphs with nested decisions, BKM chains, tables and services) plus a rotating window of the repository's own example models (every invocable, three input contexts each), with seeded yields / spins / sleeps at the hook between lock "
         "acquisitions; then 6 hammer rounds per repetition (all threads call one invocable with 2-4 alternating inputs, identical inputs recurring, no delays); each repetition ends with 3 rendezvous rounds (K = thread count evaluations held inside the evaluator at once); %d repetitions on the ThreadSanitizer build. Distinct = order signature of "
         "the logical-clock event log; non-trivial = repetition in which calls of different threads overlapped." % (reps, tsan_reps)
     )
@@ -200,11 +208,12 @@ def run(rep, tier, seed):
             name, text, mcalls = shipped[(r * window + k) % len(shipped)]
             models_r.append(text)
             calls_r += [[len(models_r) - 1, inv, inp] for inv, inp in mcalls]
-        cases.append({"op": "threads", "models": models_r, "calls": calls_r, "threads": n, "per_thread": rng.choice([60, 120, 400]) if n <= 8 else 60, "seed": rng.randint(1, 2 ** 48), "rendezvous": n, "gate_timeout_ms": 20000, "hammer_rounds": 6, "hammer_calls": 300 if n <= 8 else 150, "hammer_keys": rng.choice([2, 3, 4]), "hammer_prefer": services})
+        cases.append({"op": "threads", "models": models_r, "calls": calls_r, "threads": n, "per_thread": rng.choice([60, 120, 400]) if n <= 8 else 60, "seed": rng.randint(1, 2 ** 48), "rendezvous": n, "gate_timeout_ms": 20000, "hammer_rounds": 6, "hammer_calls": 300 if n <= 8 else 150, "hammer_keys": rng.choice([2, 3, 4]), "hammer_prefer": services, "cold_rounds": 2 * len(models_r), "cold_steps": 16})
     results, meta = runner.run_cases("dbg", cases, rep.workdir, label="threads", nshards=4, case_timeout=180)
     sigs = set()
     total_calls = total_pairs = 0
     hammer_calls = 0
+    cold_calls = cold_first = 0
     hammer_targets = set()
     max_conc = 0
     rv_reached = rv_rounds = 0
@@ -229,7 +238,7 @@ def run(rep, tier, seed):
             continue
         if not res.get("hook_installed"):
             raise runner.Inconclusive("the model-evaluator verification hook is not compiled in")
-        rep.count(res["calls"] + res.get("hammer_calls", 0))
+        rep.count(res["calls"] + res.get("hammer_calls", 0) + res.get("cold_calls", 0))
         total_calls += res["calls"]
         hammer_calls += res.get("hammer_calls", 0)
         hammer_targets.update(res.get("hammer_targets", []))
@@ -239,7 +248,12 @@ def run(rep, tier, seed):
             sigs.add(res["order_signature"])
         for sd in res.get("sequential_differs", [])[:1]:
             rep.violation("result-depends-on-earlier-calls", "a call on the shared evaluator, made in sequence after other calls, differs from the same call made alone on a fresh evaluator: %s" % json.dumps(sd)[:400], dict(one, expected=sd.get("expected"), observed=sd.get("observed")))
-        if res["mismatch_count"]:
+        cold_calls += res.get("cold_calls", 0)
+        cold_first += res.get("cold_first_evaluations", 0)
+        if res.get("cold_mismatches"):
+            m = res["cold_mismatches"][0]
+            rep.violation("result-differs-from-sequential:cold-start", "first evaluations of an invocable made by several threads at once on a fresh evaluator: %s" % json.dumps(m)[:400], dict(one, expected=m.get("expected"), observed=m.get("observed")))
+        if res["mismatch_count"] and res["mismatches"]:
             m = res["mismatches"][0]
             rep.violation("result-differs-from-sequential", "%d of %d concurrent calls differ from the result of the same call made alone, e.g. %s" % (res["mismatch_count"], res["calls"] + res.get("hammer_calls", 0), json.dumps(m)[:400]), dict(one, expected=m.get("expected"), observed=m.get("observed")))
         if res["thread_panics"]:
@@ -260,14 +274,14 @@ def run(rep, tier, seed):
             rep.sample({k: res[k] for k in ("calls", "overlapping_pairs", "max_overlap_logical", "max_inside_hook", "order_signature", "rendezvous", "hook_events")})
     rep.distinct = sigs
     rep.extra.update({"call_events": total_calls, "overlapping_call_pairs": total_pairs, "max_observed_concurrency": max_conc, "distinct_overlap_signatures": len(sigs), "rendezvous_rounds": rv_rounds, "rendezvous_reached": rv_reached,
-                      "models": len(models) + len(shipped), "distinct_calls": len(calls) + sum(len(c) for _, _, c in shipped), "hammer_calls_identical_inputs": hammer_calls, "hammer_invocables_covered": len(hammer_targets)})
+                      "models": len(models) + len(shipped), "distinct_calls": len(calls) + sum(len(c) for _, _, c in shipped), "hammer_calls_identical_inputs": hammer_calls, "cold_start_calls": cold_calls, "cold_start_first_evaluations_made_concurrently": cold_first, "hammer_invocables_covered": len(hammer_targets)})
     # ---- ThreadSanitizer ----
     try:
         runner.build("tsan")
         tcases = []
         for r in range(tsan_reps):
             n = [4, 8, 2, 16][r % 4]
-            tcases.append({"op": "threads", "models": models, "calls": calls, "threads": n, "per_thread": 40, "seed": rng.randint(1, 2 ** 48), "rendezvous": min(n, 4), "gate_timeout_ms": 60000, "hammer_rounds": 3, "hammer_calls": 40, "hammer_keys": 2, "hammer_prefer": services})
+            tcases.append({"op": "threads", "models": models, "calls": calls, "threads": n, "per_thread": 40, "seed": rng.randint(1, 2 ** 48), "rendezvous": min(n, 4), "gate_timeout_ms": 60000, "hammer_rounds": 3, "hammer_calls": 40, "hammer_keys": 2, "hammer_prefer": services, "cold_rounds": len(models), "cold_steps": 8})
         tres, tmeta = runner.run_cases("tsan", tcases, rep.workdir, label="tsan", nshards=2, case_timeout=600)
         races = {}
         for text in tmeta["sanitizer_reports"]:
@@ -290,7 +304,7 @@ def run(rep, tier, seed):
                 ok += 1
                 rep.count(res["calls"])
                 if res["mismatch_count"]:
-                    rep.violation("result-differs-from-sequential:tsan", json.dumps(res["mismatches"][:1])[:400], {"variant": "tsan", "case": case})
+                    rep.violation("result-differs-from-sequential:tsan", "%d calls differ, e.g. %s" % (res["mismatch_count"], json.dumps((res["mismatches"] + res.get("cold_mismatches", []))[:1])[:400]), {"variant": "tsan", "case": case})
             elif "crash" in res and "ThreadSanitizer" in (res["crash"].get("stderr") or ""):
                 rep.violation("tsan:fatal", res["crash"]["stderr"][-1500:], {"variant": "tsan", "case": case})
         rep.extra["tsan_repetitions_completed"] = ok
